@@ -99,10 +99,11 @@ def _plan(prop, T):
                 key_random("dbg", mon, "tree", 6400, T),
                 key_random("rel", mon, "tree", 9600, T),
                 dict(flavour="dbg", suite="sweep-line", args=dict(mon="pred,empty,phys", coll="tree"), shards=8, budget=160 * (6 if T else 1)),
+                dict(flavour="rel", suite="big", args=dict(max_n=4000000 if T else 400000, probes="kquery"), shards=16, timeout=3400 if T else 150),
                 miri("key-random", 128, 8, T, mon="pred,empty", coll="tree", **MIRI_KEY),
             ],
             rule="evaluation = one predecessor query (first_less / first_less_or_equal / first_less_or_equal_by with 3 monotone comparators) or is_empty compared with the flat reference model (greatest key satisfying the bound among entries with expiration > t); distinct non-trivial = distinct (reference contents relative to t, query kind, probe) with >= 2 live entries, plus every closed canonical physical state holding >= 2 entries",
-            require={"pred_compared_entry": 20000, "pred_compared_default": 2000, "q_with_expired_entry_on_search_path": 500, "q_that_physically_removed_entries": 1000, "q_with_t_equal_expiration_present": 1000, "op_insert_over_expired_equal_key": 500, "states": 2000},
+            require={"pred_compared_entry": 20000, "pred_compared_default": 2000, "q_with_expired_entry_on_search_path": 500, "q_that_physically_removed_entries": 1000, "q_with_t_equal_expiration_present": 1000, "op_insert_over_expired_equal_key": 500, "states": 2000, "big_key_queries": 100000, "max_entries_built": 300000},
             exhaustive_claim=False,
             exhaustive_scope="closure complete for the key-closure parameter sets listed in monitor_counters (closure_states_*); random histories sample beyond",
             assumptions=["reference model: linear scan with predicate expiration > t", "histories generated inside the contract (distinct live keys, non-decreasing time between clears, expiration >= insertion time, monotone comparators)"],
@@ -115,10 +116,11 @@ def _plan(prop, T):
                 key_random("dbg", mon, "tree", 6400, T),
                 key_random("rel", mon, "tree", 9600, T),
                 key_random("dbg", mon, "tree", 1600, T, profile="lookup-sweeps", seed_offset=77),
+                dict(flavour="rel", suite="big", args=dict(max_n=4000000 if T else 400000, probes="kquery"), shards=16, timeout=3400 if T else 150),
                 miri("key-random", 128, 8, T, mon="get", coll="tree", **MIRI_KEY),
             ],
             rule="evaluation = one get_value compared with the reference (Some(id) iff an entry with that key has expiration > t); distinct non-trivial = distinct (reference contents relative to t, probe) with >= 2 live entries, plus closed canonical states with >= 2 entries",
-            require={"get_compared_hit": 5000, "get_compared_miss": 5000, "get_target_in_left_subtree": 300, "get_target_in_right_subtree": 300, "get_target_at_root": 100, "states": 2000},
+            require={"get_compared_hit": 5000, "get_compared_miss": 5000, "get_target_in_left_subtree": 300, "get_target_in_right_subtree": 300, "get_target_at_root": 100, "states": 2000, "big_key_queries": 100000},
             exhaustive_scope="every closed state x get_value of every probe 0..=2u",
             assumptions=["reference model: linear scan", "in-contract histories"],
         )
@@ -132,10 +134,11 @@ def _plan(prop, T):
                 key_random("dbg", mon, "both", 6400, T),
                 key_random("rel", mon, "both", 9600, T),
                 key_random("asan", mon, "both", 3200, T),
+                dict(flavour="rel", suite="export-size", args=dict(max_n=4000000 if T else 300000), shards=16, mem_limit=(24 if T else 8) * GB, timeout=3400 if T else 150),
                 miri("key-random", 96, 8, T, mon="export", coll="both", **MIRI_KEY),
             ],
             rule="evaluation = one into_ordered_vec(t) (tree or list, on a fresh or cloned instance since export consumes) compared with the reference's live ids in key order; distinct non-trivial = distinct (reference contents relative to t, export time offset) with >= 2 live entries",
-            require={"op_export": 5000, "export_with_t_equal_expiration": 300, "export_with_expired_present": 500, "export_with_expired_successor_of_expired_node": 100, "export_with_previously_used_free_slots": 300, "export_dropping_expired_entries": 500},
+            require={"op_export": 5000, "export_with_t_equal_expiration": 300, "export_with_expired_present": 500, "export_with_expired_successor_of_expired_node": 100, "export_with_previously_used_free_slots": 300, "export_dropping_expired_entries": 500, "max_entries_exported": 250000},
             exhaustive_scope="every closed state x export at t, t+1, .., t+R+1",
             assumptions=["reference model: filter expiration > t, sort by key", "in-contract histories"],
         )
@@ -239,7 +242,13 @@ def _plan(prop, T):
                 dict(flavour=fl, suite="sweep-line", args=dict(mon="none", smon="none", seg=1, nojudge=1), shards=4, budget=80 * scale),
             ]
         jobs += [
-            dict(flavour="rel", suite="export-size", args=dict(max_n=60000, nojudge=1), shards=4, mem_limit=8 * GB),
+            dict(flavour="rel", suite="export-size", args=dict(max_n=300000, nojudge=1), shards=8, mem_limit=8 * GB),
+            dict(flavour="rel", suite="big", args=dict(max_n=400000, nojudge=1), shards=8, timeout=3400 if T else 150),
+            dict(flavour="rel", suite="big", args=dict(max_n=400000, probes="clear", nojudge=1), shards=8, timeout=3400 if T else 150),
+            dict(flavour="rel", suite="big", args=dict(max_n=400000, probes="kquery", nojudge=1), shards=4, timeout=3400 if T else 150),
+            dict(flavour="rel", suite="big", args=dict(max_n=400000, probes="handle", nojudge=1), shards=4, timeout=3400 if T else 150),
+            dict(flavour="rel", suite="big", args=dict(max_n=400000, probes="steps", nojudge=1), shards=4, timeout=3400 if T else 150),
+            dict(flavour="dbg", suite="big", args=dict(max_n=270000, probes="clear", nojudge=1), shards=8, timeout=3400 if T else 150),
             miri("key-random", 72, 6, T, mon="none", coll="both", nojudge=1, **MIRI_KEY),
             miri("ord-random", 60, 6, T, mon="none", coll="maptree+settree+maplist+setlist+settree-int", nojudge=1, **MIRI_ORD),
             miri("seg-random", 60, 4, T, mon="none", len=40, nojudge=1),
@@ -264,9 +273,10 @@ def _plan(prop, T):
                 key_random("dbg", "slots", "tree", 3200, T),
                 key_random("rel", "slots", "tree", 4800, T, profile="large,medium,insert-heavy-long-lived,clear-heavy", seed_offset=6),
                 dict(flavour="rel", suite="big", args=dict(max_n=1000000 if T else 100000), shards=16, timeout=3400 if T else 150),
+                dict(flavour="rel", suite="big", args=dict(max_n=4000000 if T else 400000, probes="clear"), shards=16, timeout=3400 if T else 150),
             ],
             rule="evaluation = one hooked snapshot in which {sentinel} + reachable slots + free list must partition 0..buffer.len() (and everything is free after clear), with buffer.len() <= 4*(peak+1)+max(hint,8); distinct non-trivial = closed canonical shapes + distinct (reference contents, operation) of the random histories",
-            require={"snapshots_checked": 200000, "op_clear": 1000, "max_buffer_len_seen": 2000, "states": 3000},
+            require={"snapshots_checked": 200000, "op_clear": 1000, "max_buffer_len_seen": 2000, "states": 3000, "big_clears_checked": 100, "max_entries_built": 300000},
             exhaustive_scope="slot accounting after every transition of the closures; bound checked along long churn",
             assumptions=["snapshot hook is faithful", "storage bound uses factor 4 where the pool's own policy gives < 3, so another linear policy is not flagged"],
         )
@@ -278,10 +288,11 @@ def _plan(prop, T):
                 dict(flavour="dbg", suite="key-closure", args=dict(mon="none", twin=1, coll="list", sets=(KEY_SETS_THOROUGH if T else KEY_SETS_QUICK)), shards=nsets(KEY_SETS_THOROUGH if T else KEY_SETS_QUICK), timeout=3000 if T else 120),
                 dict(flavour="dbg", suite="clear-twin", args=dict(), shards=16, budget=14000 * 10 * (8 if T else 1)),
                 dict(flavour="rel", suite="clear-twin", args=dict(), shards=16, budget=21000 * 10 * (8 if T else 1), seed_offset=9),
+                dict(flavour="rel", suite="big", args=dict(max_n=4000000 if T else 400000, probes="clear"), shards=16, timeout=3400 if T else 150),
                 miri("clear-twin", 28, 7, T, small=1),
             ],
             rule="evaluation = one operation executed after clear() on the cleared instance and on a freshly constructed twin (other capacity hint) with identical observations required (values by id offset, handles by dereferenced entry), reference model alongside; distinct non-trivial = distinct (history, suffix position)",
-            require={"clears_checked": 10000, "clears_of_empty_collection": 500, "repeated_clears": 100},
+            require={"clears_checked": 10000, "clears_of_empty_collection": 500, "repeated_clears": 100, "big_clears_checked": 100},
             exhaustive_scope="sampled (prefix, suffix) pairs on all seven collections; and every closed state of the six tree / list collections over the listed key universes as the prefix (expired-but-unremoved entries, used free lists, grown arenas included) x scripted suffixes with the clock restarted at 0",
             assumptions=["numeric handle values are not compared (a cleared arena hands out slots in another order)"],
         )
@@ -366,10 +377,10 @@ def _plan(prop, T):
                 dict(flavour="dbg", suite="ord-closure", args=dict(mon="lookup,handle,steps", fault=1, sets=("maptree:7:8,settree:7:0,maplist:7:0,setlist:7:1,maptree:6:1,settree:6:9,maplist:8:8,setlist:8:0" if T else "maptree:6:8,settree:6:0,maplist:6:0,setlist:6:1,maptree:5:1,settree:5:9,maplist:7:8,setlist:7:0")), shards=8, timeout=3000 if T else 120),
                 dict(flavour="dbg", suite="key-closure", args=dict(mon="pred,get,export", fault=1, coll="tree", sets=("4:3:1,5:2:8,4:2:0,3:4:9" if T else "4:3:1,4:2:8,3:3:0,3:2:9")), shards=4, timeout=3000 if T else 120),
                 dict(flavour="dbg", suite="key-closure", args=dict(mon="pred,get,export", fault=1, coll="list", sets=("4:3:1,5:2:8,4:2:0,3:4:9" if T else "4:3:1,4:2:8,3:3:0,3:2:9")), shards=4, timeout=3000 if T else 120),
-                dict(flavour="dbg", suite="fault", args=dict(), shards=16, budget=2800 * 16 * (8 if T else 1)),
-                dict(flavour="rel", suite="fault", args=dict(), shards=16, budget=2800 * 16 * (8 if T else 1), seed_offset=13),
-                dict(flavour="asan", suite="fault", args=dict(), shards=8, budget=700 * 8 * (8 if T else 1), seed_offset=14),
-                miri("fault", 7, 7, T, len=8),
+                dict(flavour="dbg", suite="fault", args=dict(), shards=16, budget=2800 * 8 * (8 if T else 1)),
+                dict(flavour="rel", suite="fault", args=dict(), shards=16, budget=2800 * 8 * (8 if T else 1), seed_offset=13),
+                dict(flavour="asan", suite="fault", args=dict(), shards=8, budget=700 * 4 * (8 if T else 1), seed_offset=14),
+                miri("fault", 7, 7, T, len=8, bulk=0),
             ],
             rule="evaluation = one injection point (history, operation index, callback index) enumerated exhaustively per history: the callback panics, the panic is caught, then structure + slot accounting are validated, observable contents must equal the reference before or after the operation, the rest of the history runs under all monitors, and payload drops must balance; distinct non-trivial = distinct (collection, operation, callback index, reference contents before)",
             require={"operations_enumerated": 50000, "injected_key_cmp": 1000, "injected_key_partial_cmp": 300, "injected_key_comparator": 300, "injected_key_expiration": 1000, "injected_map_key_cmp": 1000, "injected_map_comparator": 100, "injected_set_key_cmp": 1000, "injected_set_key_accessor": 1000, "injected_set_comparator": 100, "injected_seg_val_expiration": 1000, "outcome_contents_as_before": 10000},
